@@ -97,8 +97,9 @@ func alertClearedOnlyWhenConsumed(c *Ctx, rule string) {
 				}
 			}
 		}
-		c.Check(len(muts) >= 2 && len(bad) == 0, rule, v.Name()+":no-forward-after-clearing", v.Fn.Pos(), fmt.Sprintf(
+		// (the write-back of the hop field may sit in a helper; the flag store is the anchor)
+		c.Check(len(muts) >= 1 && len(bad) == 0, rule, v.Name()+":no-forward-after-clearing", v.Fn.Pos(), fmt.Sprintf(
 			"%d mutation(s) of the alert flag / hop field; %s", len(muts), strings.Join(bad, "; ")))
 	}
-	c.Min("router-alert-mutations", n, 4)
+	c.Min("router-alert-mutations", n, 2)
 }
